@@ -361,6 +361,11 @@ func RunC11(env *sim.Env) {
 	}
 	set := jet.NewSet(yl, sopts...)
 	set.AddGlobal("gc", "const")
+	if t.Choose(6) == 5 {
+		// a global that was registered with a nil value: dump() fails on it - inside its critical section
+		set.AddGlobal("gnil", nil)
+		env.Stat("probe:global_registered_with_nil_value", 1)
+	}
 
 	// ---- operation lists (drawn before the clients start: clients never touch the tape)
 	stableKeys := sim.SortedKeys(w.alone)
